@@ -21,7 +21,7 @@ ID = "C17"
 RULE = ("case = one archive history (1..8 minerals with random phase/fabric/regime ordinals, grain counts, snapshot counts and "
         "float64 contents incl. NaN/inf/-0.0/subnormals; random save order; loads in random order through both loaders) or one "
         "rejection case; distinct = descriptor digest; non-trivial = archive with >= 2 entries or a mineral with >= 2 snapshots")
-ASSUMPTIONS = ["postfixes are distinct non-empty strings of letters, digits, '_' and '-'",
+ASSUMPTIONS = ["postfixes are distinct strings of letters, digits, '_' and '-' (incl. the empty string) or integers; str(p) distinct",
                "attribute comparison is field by field (Mineral.__eq__ also compares the non-persisted seed)"]
 TOLERANCES = {"arrays": "bit-identical (tobytes)"}
 REQUIRED_MONITORS = ["from_file_restores_exactly", "load_restores_exactly", "archive_keys_conserved", "rejected_without_writing"]
@@ -121,7 +121,16 @@ def _archive(ctx, pydrex, case, scratch):
     pool = ["a", "b2", "ol", "en", "x_y", "p-1", "0", "17", "Zz", "m_3_t", "postfix", "fractions", "meta",
             "L5", "M0_X0_L5", "M10_X0_L5", "X0_L5", "1", "olivine_1", "enstatite_1", "11", "1_1", "y", "x", "a_b2", "b2_a", "M0", "M0_X0"]
     postfixes = [str(p) for p in rng.choice(pool, size=k, replace=False)]
-    if k >= 2 and rng.random() < 0.6:
+    if rng.random() < 0.35:
+        # integer indices and the empty string are legal, distinct postfixes too (0 and "" are falsy but not None)
+        specials = [0, 1, 2, 17, ""]
+        take = int(rng.integers(1, min(k, 4) + 1))
+        chosen = [specials[int(i)] for i in rng.permutation(len(specials))[:take]]
+        keep = [p for p in postfixes if p not in {str(c) for c in chosen}][: k - take]
+        mixed = chosen + keep
+        postfixes = [mixed[int(i)] for i in rng.permutation(len(mixed))]
+        k = len(postfixes)
+    elif k >= 2 and rng.random() < 0.6:
         fam = [["L5", "M0_X0_L5", "X0_L5", "M10_X0_L5"], ["1", "olivine_1", "1_1", "11", "enstatite_1"], ["x", "x_y", "y"], ["a", "a_b2", "b2", "b2_a"],
                ["M0", "M0_X0", "M0_X0_L5"]][int(rng.integers(5))]
         take = min(k, len(fam))
@@ -131,7 +140,7 @@ def _archive(ctx, pydrex, case, scratch):
             c = str(rng.choice(pool))
             if c not in postfixes:
                 postfixes.append(c)
-    minerals = [make_mineral(pydrex, rng) for _ in range(k + 1)]
+    minerals = [make_mineral(pydrex, rng) for _ in range(case["n_minerals"] + 1)]
     ops = []
     if case["whole_first"]:
         m, mod = minerals[k]
@@ -156,7 +165,8 @@ def _archive(ctx, pydrex, case, scratch):
             exp.add(base if pf is None else f"{base}_{pf}")
     ctx.check("archive_keys_conserved", keys == exp, case, got=sorted(keys), expected=sorted(exp), ops=ops)
     # loads in random order through both loaders
-    for pf in rng.permutation(np.array(list(model.keys()), dtype=object)):
+    keys_ = list(model.keys())
+    for pf in [keys_[int(i)] for i in rng.permutation(len(keys_))]:
         mod = model[pf]
         try:
             m1 = pydrex.Mineral.from_file(path, postfix=pf)
@@ -173,11 +183,14 @@ def _archive(ctx, pydrex, case, scratch):
             ctx.check("load_restores_exactly", False, case, key=f"load_raises/{type(e).__name__}", postfix=pf, exc=str(e)[:150], ops=ops)
     # a loaded mineral saved again reproduces the same bytes of arrays (idempotence of the round trip)
     pf0 = list(model.keys())[0]
-    m1 = pydrex.Mineral.from_file(path, postfix=pf0)
-    p2 = os.path.join(scratch, "again.npz")
-    m1.save(p2)
-    m2 = pydrex.Mineral.from_file(p2)
-    ctx.check("resave_roundtrip", not compare(m2, model[pf0]), case)
+    try:
+        m1 = pydrex.Mineral.from_file(path, postfix=pf0)
+        p2 = os.path.join(scratch, "again.npz")
+        m1.save(p2)
+        m2 = pydrex.Mineral.from_file(p2)
+        ctx.check("resave_roundtrip", not compare(m2, model[pf0]), case)
+    except Exception as e:
+        ctx.check("resave_roundtrip", False, case, key=f"resave_raises/{type(e).__name__}", exc=str(e)[:150], postfix=pf0, ops=ops)
     if len(ctx.samples) < 3:
         ctx.sample(case, ops=ops, keys=sorted(keys)[:12])
 
